@@ -1220,6 +1220,22 @@ fn ffi_multi_case(seed: u64, _thorough: bool) -> (Vec<(String, String)>, Report)
 /// sequence of block switches (StrideEval doubles its score array from the 4th switch on)
 pub fn gen_piecewise(r: &mut Rng, n: usize) -> Vec<u8> {
     let mut v = Vec::with_capacity(n + 16);
+    if r.chance(1, 4) {
+        // "many mutually incompatible distributions": 70-110 consecutive stretches, each random over its OWN
+        // two-byte alphabet and never recurring, so that the first clustering pass of the slow block splitter
+        // (quality 10/11) is left with more than 64 clusters and takes its re-allocation paths
+        let stretches = 70 + r.below(41) as usize;
+        let seg = (n / stretches).max(64);
+        let mut k = 0usize;
+        while v.len() < n {
+            let a = (k * 2) as u8; let b = a.wrapping_add(1 + 2 * r.below(3) as u8);
+            let bias = 2 + r.below(3);
+            for _ in 0..seg { v.push(if r.below(bias) == 0 { b } else { a }); }
+            k += 1;
+        }
+        v.truncate(n);
+        return v;
+    }
     let nalpha = 3 + r.below(6) as usize;
     let alphas: Vec<(u8, u64)> = (0..nalpha).map(|_| { let wide = r.chance(1, 3); (r.next() as u8, 2 + r.below(if wide { 63 } else { 14 })) }).collect();
     while v.len() < n {
